@@ -230,16 +230,27 @@ def run_case(case, rec):
             members = [k for k, f in ui.items() if isinstance(f, dict) and f.get("group") == gname]
             if members and rng.random() < 0.6:
                 state = rng.random() < 0.6
-                ui[members[0]]["groupOptional"] = True
-                ui[members[0]]["enabled"] = state
-                if ui[members[0]].get("enabled") is False and "dependency" in ui[members[0]]:
+                first = ui[members[0]]
+                # the switch member cannot be on while its own dependency switches it off, or while it holds no value
+                if (first.get("enabled") is False and "dependency" in first) or first.get("value") is None:
                     state = False
-                ui[members[0]]["enabled"] = state
+                first["groupOptional"] = True
+                first["enabled"] = state
                 if not state:
                     for m in members:
                         ui[m]["enabled"] = False
                 rec.see("group-optional:" + ("on" if state else "off"))
         raw_empty = {k for k, f in ui.items() if isinstance(f, dict) and f.get("value") == ""}  # before ingestion
+        # the known empty-string mechanism switches its parameter off; when that parameter is the switch of an optional
+        # group or the target of a dependency, the members / dependents follow it: same mechanism, same label
+        for _ in range(3):
+            for k, f in ui.items():
+                if not isinstance(f, dict) or k in raw_empty:
+                    continue
+                grp = f.get("group")
+                switch = [m for m, g in ui.items() if isinstance(g, dict) and grp and g.get("group") == grp and g.get("groupOptional")]
+                if (switch and switch[0] in raw_empty) or f.get("dependency") in raw_empty:
+                    raw_empty = raw_empty | {k}
         try:
             in_file = InputFile(ui_json=ui)
             before = snapshot(in_file)
